@@ -429,6 +429,14 @@ func (x *X) equal(fr *Frame, a, b SV, at, bt types.Type) Term {
 	if isFloat(at) {
 		return app(SBool, "fp.eq", ta, tb)
 	}
+	// a slice can only be compared with nil: it is nil when it has no backing array
+	if _, ok := at.Underlying().(*types.Slice); ok && ta.Sort == SSlice && tb.Sort == SSlice {
+		if z := x.enc.zero(at); tb.S == z.S {
+			return mkEq(app(SInt, "sbase", ta), intLit(0))
+		} else if ta.S == z.S {
+			return mkEq(app(SInt, "sbase", tb), intLit(0))
+		}
+	}
 	// comparing an interface with a concrete value
 	if ta.Sort == SAny && tb.Sort != SAny {
 		tb = x.makeInterface(tb, bt)
